@@ -21,10 +21,15 @@ def run(c):
         harness(c, 800)
 
     return c.finish(
-        rule="histories of 1-4 consecutive transactions through ONE real remote target (shared connection pool) against a scripted go-smtp server "
-        "(SMTPUTF8 on/off, per-recipient RCPT refusals, DATA failure), recipients ASCII / IDN-domain / non-ASCII local part / upper-case over 3 domains; "
-        "LMTP next hop through the real target.lmtp with per-recipient statuses; pipeline reverse translation with 1-to-N rewrites; "
-        "status keys seen by a recording StatusCollector compared with the model; distinct = distinct histories",
+        rule="histories of 1-4 consecutive transactions through ONE real remote target (shared connection pool) against a scripted next hop: "
+        "1/3 go-smtp server (SMTPUTF8 on/off, per-recipient RCPT refusals, DATA failure), 2/3 positional raw responder "
+        "(answer per RCPT command independent of spelling, per-domain DATA failure, connection fault exactly under a RCPT that follows k accepted ones "
+        "of the same connection and is followed by more: 421+close / close / reset / stall in virtual time, on fresh and pooled connections); "
+        "recipients ASCII / IDN U-label / A-label / non-ASCII local part over 3 domains, and ONE mailbox spelled several ways (letter case, A-label vs U-label, "
+        "NFC vs NFD) as different recipients of one transaction; ground truth = what the next hop holds in transactions it answered 250; "
+        "LMTP next hop through the real target.lmtp with per-recipient statuses (by position, respelled mailboxes, replies cut off, faults under RCPT); "
+        "pipeline reverse translation with 1-to-N rewrites and rewrite results that are themselves client-supplied recipients (chains, swaps); "
+        "status keys and values seen by a recording StatusCollector compared with the model; distinct = distinct histories",
         explanation="theorems over all histories/pools/recipient lists; model tied to smtpconn/remote/smtp_downstream by differential runs against scripted servers",
         search=search,
     )
